@@ -369,11 +369,10 @@ def run_shard(spec, tier):
         alts = alterations(curve, secret, msg, tier, len(raw), len(sigref.public_from_secret(curve, secret)), dense)[lo:hi]
         for alt in alts:
             case = {'kind': 'alt', 'curve': curve, 'secret': secret, 'msg': msg, 'generic': generic, 'alt': alt}
-            r.ev()
             vs, lab, wf, nv = judge_alt(curve, secret, msg, generic, alt, kind, raw)
-            if lab == 'n/a':
-                r.evaluations -= 1
+            if lab == 'n/a':      # the alteration does not change this base case (e.g. relabelling to its own prefix)
                 continue
+            r.ev()
             r.out(lab + (' VIOLATION' if vs else ''))
             if nv:
                 r.no_verdict += 1
